@@ -89,7 +89,7 @@ class Scenario:
             cls = UTrenchColumn if utc else TrenchColumn
             kw = dict(n_pillars=rng.choice([0, 1])) if utc else {}
             self.col = cls(x_center=2.0, y_min=0.05, y_max=0.2 + 0.3 * len(self.wgs), length=rng.choice([0.3, 0.6]),
-                           nboxz=rng.choice([1, 2]), h_box=0.05, deltaz=0.01, delta_floor=0.004, safe_inner_turns=2,
+                           nboxz=rng.choice([1, 2]), h_box=0.05, deltaz=0.01, delta_floor=0.004, safe_inner_turns=rng.choice([2, 0, 3]),
                            base_folder='', **kw)
             self.col.dig_from_waveguide(self.wgs)
             self.dev = Device(filename='dev.pgm', export_dir='', **self.cfg)
@@ -176,7 +176,7 @@ def run(rep: common.Report, tier: str, seed: int):
     quick = tier == 'quick'
     cases, lits = [], []
     hist = {'ops': {}, 'lengths': {}}
-    for _ in range(12 if quick else 120):
+    for _ in range(30 if quick else 300):
         sc = Scenario(rng)
         n = rng.randint(4, 9)
         ops = [rng.choice(OPS) for _ in range(n)]
